@@ -2,7 +2,7 @@
     Only statements, each closed by [exact] of a lemma from Proofs/UdpTc.v. *)
 From Coq Require Import String.   (* before Prelude: [length], [++] stay the list ones *)
 From Verif Require Import Base.Prelude Gen.Constants Model.UdpTc Proofs.UdpTc.
-From Verif Require Model.Addr.
+From Verif Require Model.Addr Model.Retry.
 Open Scope N_scope.
 
 (** ** The TC test *)
@@ -255,6 +255,37 @@ Print Assumptions c17_caller_deadline_is_an_error.
 Theorem c17_no_crossed_replies f es : Forall2 (reply_ok f) es (rrun f rpool0 es).
 Proof. exact (rrun_own_replies f es rpool0 pool0_ok). Qed.
 Print Assumptions c17_no_crossed_replies.
+
+(** ** Dead idle connections in the way of the retry
+
+    The TCP leg's retry loop is [Retry.loop Retry.reuse_cfg] (Model/Retry.v,
+    shape and constant regenerated from reuse.go).  With [k] idle connections
+    that each fail mid-exchange (query read, connection closed) and a server
+    that answers on a new connection: for k <= maxRetry + 1 the caller of the
+    fallback gets the TCP reply, from one new connection, and the server saw
+    the caller's query k + 1 times and nothing else; one more dead connection
+    and the last error is returned without dialling. *)
+Theorem c17_retry_budget : Retry.allowed Retry.reuse_cfg = reuse_max_retry + 1.
+Proof. exact reuse_allowed. Qed.
+Print Assumptions c17_retry_budget.
+
+Theorem c17_stale_conns_then_fresh k f q :
+  N.of_nat k <= reuse_max_retry + 1 ->
+  reuse_stale k f q = (Reply (f q), mkEff true 1 (repeat q (S k))).
+Proof. exact (reuse_stale_answered k f q). Qed.
+Print Assumptions c17_stale_conns_then_fresh.
+
+Theorem c17_fallback_over_stale_conns q r k f :
+  msg_truncated r = Some true -> N.of_nat k <= reuse_max_retry + 1 ->
+  udp_with_fallback q (Reply r) (fun q' => fst (reuse_stale k f q')) = (RReply (f q), [q]).
+Proof. exact (fallback_over_stale_conns q r k f). Qed.
+Print Assumptions c17_fallback_over_stale_conns.
+
+Theorem c17_one_stale_conn_too_many k f q :
+  N.of_nat k = reuse_max_retry + 2 ->
+  reuse_stale k f q = (Err e_closed, mkEff false 0 (repeat q k)).
+Proof. exact (reuse_stale_too_many k f q). Qed.
+Print Assumptions c17_one_stale_conn_too_many.
 
 (** Non-vacuity of the above: url host 127.0.0.2 (no port), DialAddr 127.0.0.1:5353. *)
 Example c17_dials_nonvacuous :
